@@ -1,7 +1,7 @@
 PROP = {
     "id": "C25",
     "theorem_modules": ["Verif.Properties.C25"],
-    "min_theorems": 11,
+    "min_theorems": 14,
     "required_theorems": [
         "Verif.Properties.C25.ids_fresh",
         "Verif.Properties.C25.index_consistent",
@@ -12,6 +12,9 @@ PROP = {
         "Verif.Properties.C25.get_published_only",
         "Verif.Properties.C25.inbox_claim",
         "Verif.Properties.C25.borrow_iff",
+        "Verif.Properties.C25.capability_borrow_iff",
+        "Verif.Properties.C25.untyped_capability_borrow_iff",
+        "Verif.Properties.C25.retarget_away_and_back",
     ],
     "streams": [
         {"name": "caps", "driver": "drv_caps",
@@ -29,13 +32,20 @@ PROP = {
                   "`unreachable` branch of the Go code; under it getControllers/forEachController report exactly the live controllers of the path; "
                   "capabilities.get returns only a currently published capability with a live controller and related types; "
                   "borrow yields a reference exactly when published, live, types related and the stored value is a subtype "
-                  "(borrow_iff, both directions) and never changes the state; an inbox claim returns "
+                  "(borrow_iff, both directions) and never changes the state; the same rule for a capability VALUE whose type differs "
+                  "from its controller's (obtained with capabilities.get<&G>, held as untyped Capability or re-published): the wanted "
+                  "type is compared with the capability's type AND with the controller's type (capability_borrow_iff, "
+                  "untyped_capability_borrow_iff); retargeting away and back restores every listing (retarget_away_and_back); an inbox claim returns "
                   "only what that provider published for that claimer under that name and at most once.  Tied to /repo by the "
                   "`caps` stream: histories of issue / retarget / delete / setTag / getController(s) / forEachController / "
-                  "publish / unpublish / exists / get / borrow / inbox publish, unpublish, claim / save / load over 3 accounts, "
-                  "4 storage paths, 2 public paths, 4 borrow types, as Cadence transactions on the real runtime (persistent "
-                  "ledger, both engines); every log line and outcome class compared with the machine; the table stored value x "
-                  "controller type x wanted type and the inbox type table are covered exhaustively.",
+                  "publish / unpublish / exists / get / borrow / get<&G> + untyped check<&W> / borrow<&W> / re-publish / "
+                  "inbox publish, unpublish, claim / save / load over 3 accounts, "
+                  "4 storage paths, 2 public paths, 4 borrow types, sequences of calls (retargets away and back, setTag, reads, "
+                  "listings, delete) through ONE loaded controller reference, and accounts with many (8..120) controllers "
+                  "(controller map and id sets over several slabs; every change re-read in the next transaction), as Cadence transactions on the real runtime (persistent "
+                  "ledger, both engines); every log line and outcome class compared with the machine; the tables stored value x "
+                  "controller type x wanted type, first stored value x replacing value x controller type x capability type G x "
+                  "wanted type W (untyped and re-published) and the inbox type table are covered exhaustively.",
     "level_note": "proof (refinement between two model layers) + CC.  Borrow types carry no authorizations (CanBorrow's PermitsAccess part is not exercised); "
                   "account capability controllers are not modelled.",
     "assumptions": ["type universe &C.S, &C.S2 (S2: I), &{C.I}, &AnyStruct without authorizations",
